@@ -304,6 +304,8 @@ def env_of(ctx, case):
 
 
 def record_case(ctx, case) -> dict:
+    from ..core import relieve_jit
+    relieve_jit()
     return record_rollout(case["env"], env_of(ctx, case), [tuple(s) for s in case["stack"]], case["mode"], case["steps"], case["seed"],
                           case.get("modes_every", 0))
 
